@@ -93,6 +93,8 @@ round2('C06-m3', 'C06', 'm1', [('c06_m1_demo_test.go', 'uri')], GT + "-run TestC
 round2('C06-m4', 'C06', 'm2', [('c06_m2_demo_test.go', 'uri')], GT + "-run TestC06M2 ./uri/")
 round2('C18-m3', 'C18', 'm1', [('equal_wide_mantissa_test.go', 'json'), ('enum_wide_mantissa_test.go', 'jsonschema')], GT + "-run TestEqualWideMantissa ./json/ ; a=$?; " + GT + "-run TestEnumWideMantissa ./jsonschema/ ; b=$?; [ $a -eq 0 ] && [ $b -eq 0 ]")
 round2('C18-m4', 'C18', 'm2', [('enum_respelled_test.go', 'jsonschema')], GT + "-run TestEnumRespelled ./jsonschema/")
+round2('C07-m3', 'C07', 'm1', [('c07_m1_expand_roundtrip_test.go', 'openapi/parser')], GT + "-run TestC07M1 ./openapi/parser/")
+round2('C07-m4', 'C07', 'm2', [('c07_m2_inline_default_test.go', '.')], GT + "-run TestC07M2 .")
 # round2-entries
 TABLE.update(json.load(open('/verif/tools/seeded_extra.json')) if os.path.exists('/verif/tools/seeded_extra.json') else {})
 
